@@ -264,6 +264,15 @@ func Main(t *testing.T, e Engine) {
 			fmt.Printf("HARNESS-ERROR run=%d seed=%d decode: %v\n", i, seed, err)
 			os.Exit(2)
 		}
+		// Should the system under test bring the whole process down (a panic in one of its own goroutines cannot be
+		// recovered by the harness), the driver finds the plan that was executing here.
+		if *fOut != "" {
+			inflight := *fOut + ".inflight.json"
+			rf := ReplayFile{Engine: e.Name(), Property: *fProp, Tier: *fTier, BaseSeed: *fSeed, Run: i, Seed: seed, Plan: pj,
+				Violation: Violation{Property: *fProp, Oracle: "process-crash", Signature: "process-crash", Detail: "the worker process died while executing this plan"}}
+			b, _ := json.MarshalIndent(rf, "", " ")
+			_ = os.WriteFile(inflight, b, 0o644)
+		}
 		res, herr := ExecOnce(t, e, *fProp, plan)
 		if herr != "" {
 			fmt.Printf("HARNESS-ERROR run=%d seed=%d %s\n", i, seed, herr)
@@ -338,6 +347,9 @@ func Main(t *testing.T, e Engine) {
 				break
 			}
 		}
+	}
+	if *fOut != "" {
+		os.Remove(*fOut + ".inflight.json") // (kept through the minimisation of the last run's violations)
 	}
 	for k := range keys {
 		out.Keys = append(out.Keys, k)
